@@ -287,3 +287,14 @@ Proof.
       * exact I.
       * lia.
 Qed.
+
+(* ---- unfinished tasks are irrelevant to the loop *)
+Lemma reaper_run_unfinished_irrelevant tc c its : forall st (f g : loop_iter -> bool),
+  reaper_run tc c st (map (fun it => mkIter (it_ev it) (it_t it) (f it)) its) =
+  reaper_run tc c st (map (fun it => mkIter (it_ev it) (it_t it) (g it)) its).
+Proof.
+  induction its as [|it t IH]; intros st f g; cbn [map reaper_run]; [reflexivity|].
+  change (threadless_iter tc c st (mkIter (it_ev it) (it_t it) (f it)))
+    with (threadless_iter tc c st (mkIter (it_ev it) (it_t it) (g it))).
+  apply IH.
+Qed.
